@@ -137,7 +137,7 @@ GetRX(c) ==
 EarlyWake(c) ==
     /\ pc[c] = "early"
     /\ LET x == cur[c] IN
-         /\ lz[x] \in {"dialed", "failed"}
+         /\ lz[x] \in {"dialed", "failed"} /\ (lz[x] = "failed" => "no_dial_wake" \notin Dev)
          /\ early' = [early EXCEPT ![x] = @ - 1]
          /\ IF lz[x] = "failed"
               THEN /\ pc' = [pc EXCEPT ![c] = "decide"] /\ res' = [res EXCEPT ![c] = "other"]
